@@ -5,6 +5,7 @@ CONSTANTS
   NS = 2
   NB = 2
   MaxDepth = 40
+  UseSystematic = FALSE
   UsePreludes = TRUE
   WKey = 10
   WEnv = 12
